@@ -347,7 +347,11 @@ CLAIMED["C07"] = {
     "reparameterise / inverse_reparameterise over two abstract members on "
     "disjoint parameters (each applied exactly once for either value of "
     "reverse_order, both log-Jacobians added to the running value, the "
-    "inverse in the opposite order); "
+    "inverse in the opposite order); Angle.reparameterise / "
+    "inverse_reparameterise (angle + given radius): closed forms over "
+    "uninterpreted cos / sin / arctan2 / sqrt, accumulated log-Jacobian "
+    "log r (the true one is scale * r), negative radius rejected, angles "
+    "of a prior starting at zero mapped back to [0, 2 pi); "
     "the prime prior: log_uniform_prior is the log-indicator of "
     "[xmin, xmax] and RescaleToBounds.x_prime_log_prior is the product of "
     "the per-parameter uniform priors (support = the box of prime bounds; "
@@ -358,7 +362,8 @@ CLAIMED["C07"] = {
     "post-rescaling / logit; default rescale bounds, no inversion, no "
     "offset), pre-rescaling, "
     "inversion (split / duplicate), update_bounds, the prime bounds under "
-    "inversion, Angle, "
+    "inversion, the round trip of Angle (needs facts about arctan2 / sqrt "
+    "that are not proved), Angle with a sampled radius, "
     "ToCartesian, AnglePair, CombinedReparameterisation's update / prior "
     "methods and its order checks, "
     "FlowProposal.rescale, all GW reparameterisations, logit with eps "
